@@ -721,12 +721,53 @@ theorem cInv_step (v : Variant) (cfg : Cfg) (s : State) (t : Tid) (hva : v.close
           | nil => simp at this
           | cons a r2 => cases a <;> simp at this; subst this; exact ⟨r2, rfl⟩
         have hnoclose : hasClose s.sh.wire = false := I.i3 t (by rw [hv]; rfl)
-        have hp2 : (exec v t (Step.write1 f) (Step.write2 f :: r2) s.sh c).2.rest = .write2 f :: r2 := rfl
+        cases hsx : s.sh.sockShut with
+        | true =>
+          -- the socket has been shut: TransportFail, nothing written, on to the release
+          have hex := exec_write_shut v t (.write1 f) (.write2 f :: r2) s.sh c rfl hsx
+          have hp2 : (exec v t (Step.write1 f) (Step.write2 f :: r2) s.sh c).2.rest = toRelease (.write2 f :: r2) := by
+            rw [hex]
+          have hw : (exec v t (Step.write1 f) (Step.write2 f :: r2) s.sh c).1.wire = s.sh.wire := by rw [hex]
+          have hcl : (exec v t (Step.write1 f) (Step.write2 f :: r2) s.sh c).1.closed = s.sh.closed := by rw [hex]
+          have hcg : (exec v t (Step.write1 f) (Step.write2 f :: r2) s.sh c).1.closing = s.sh.closing := by rw [hex]
+          generalize exec v t (Step.write1 f) (Step.write2 f :: r2) s.sh c = p at m hi hp2 hw hcl hcg
+          refine ⟨hdc p m, had p m, ?_, ?_, ?_, ?_, ?_, ?_⟩
+          · intro u hu
+            rw [setTh_sh, hcl]
+            by_cases hut : u = t
+            · subst hut
+              rw [vClear, hp2, atClear_toRelease] at hu; cases hu
+            · rw [vo p u hut] at hu; exact I.i1 u hu
+          · intro hcw
+            rw [setTh_sh, hw, hnoclose] at hcw; cases hcw
+          · intro u hu
+            rw [setTh_sh, hw]
+            by_cases hut : u = t
+            · subst hut; rw [vArmed, hp2, armed_toRelease] at hu; cases hu
+            · rw [vo p u hut] at hu; exact I.i3 u hu
+          · intro u c2 hc2 hat hld
+            rw [setTh_sh, hcl, hw]
+            by_cases hut : u = t
+            · subst hut; exact (i4_self p m (by intro h; cases h) c2 hc2 hat).elim
+            · exact I.i4 u c2 (i4_other p u c2 hut hc2) hat hld
+          · rw [setTh_sh, hw]; exact I.i5
+          · intro u c2 g r3 hc2 hr3
+            rw [setTh_sh]
+            rcases current_after hh hc2 with ⟨hu, hcu⟩ | ⟨hu, _, rfl⟩ | ⟨hu, _, call3, rfl⟩
+            · rw [hw]; exact I.i6 u c2 g r3 hcu hr3
+            · have : headW2 p.2.rest = true := by rw [hr3]; rfl
+              rw [hp2, headW2_toRelease] at this; cases this
+            · have := compile_headW2 v cfg call3
+              simp only at hr3
+              rw [hr3] at this; cases this
+        | false =>
+        have hp2 : (exec v t (Step.write1 f) (Step.write2 f :: r2) s.sh c).2.rest = .write2 f :: r2 := by
+          simp [exec, hsx]
         have hw : (exec v t (Step.write1 f) (Step.write2 f :: r2) s.sh c).1.wire =
-            s.sh.wire ++ [⟨t, c.idx, false, descOf f c⟩] := rfl
-        have hcl : (exec v t (Step.write1 f) (Step.write2 f :: r2) s.sh c).1.closed = s.sh.closed := rfl
-        have hcg : (exec v t (Step.write1 f) (Step.write2 f :: r2) s.sh c).1.closing = s.sh.closing := rfl
-        have hz : (exec v t (Step.write1 f) (Step.write2 f :: r2) s.sh c).2.zout = c.zout := rfl
+            s.sh.wire ++ [⟨t, c.idx, false, descOf f c⟩] := by simp [exec, hsx]
+        have hcl : (exec v t (Step.write1 f) (Step.write2 f :: r2) s.sh c).1.closed = s.sh.closed := by simp [exec, hsx]
+        have hcg : (exec v t (Step.write1 f) (Step.write2 f :: r2) s.sh c).1.closing = s.sh.closing := by simp [exec, hsx]
+        have hz : (exec v t (Step.write1 f) (Step.write2 f :: r2) s.sh c).2.zout = c.zout := by simp [exec, hsx]
         generalize exec v t (Step.write1 f) (Step.write2 f :: r2) s.sh c = p at m hi hp2 hw hcl hcg hz
         have others_out : ∀ u, u ≠ t → holds (view v cfg (s.th u)) = false := lone hl
         refine ⟨hdc p m, had p m, ?_, ?_, ?_, ?_, ?_, ?_⟩
@@ -779,11 +820,16 @@ theorem cInv_step (v : Variant) (cfg : Cfg) (s : State) (t : Tid) (hva : v.close
         have hl : holds (Step.write2 f :: r) = true := by
           simp only [disc, Bool.and_eq_true] at d; simpa [holds] using d.1.2.1
         obtain ⟨pre, hpre, hprec⟩ := I.i6 t c f r hc hr
-        have hp2 : (exec v t (Step.write2 f) r s.sh c).2.rest = r := rfl
+        -- nobody is in the middle of a frame on a shut socket
+        have hsx : s.sh.sockShut = false := by
+          cases hsx : s.sh.sockShut with
+          | false => rfl
+          | true => have := B.W.shut hsx t; rw [hv] at this; cases this
+        have hp2 : (exec v t (Step.write2 f) r s.sh c).2.rest = r := by simp [exec, hsx]
         have hw : (exec v t (Step.write2 f) r s.sh c).1.wire =
-            s.sh.wire ++ [⟨t, c.idx, true, descOf f c⟩] := rfl
-        have hcl : (exec v t (Step.write2 f) r s.sh c).1.closed = s.sh.closed := rfl
-        have hcg : (exec v t (Step.write2 f) r s.sh c).1.closing = s.sh.closing := rfl
+            s.sh.wire ++ [⟨t, c.idx, true, descOf f c⟩] := by simp [exec, hsx]
+        have hcl : (exec v t (Step.write2 f) r s.sh c).1.closed = s.sh.closed := by simp [exec, hsx]
+        have hcg : (exec v t (Step.write2 f) r s.sh c).1.closing = s.sh.closing := by simp [exec, hsx]
         generalize exec v t (Step.write2 f) r s.sh c = p at m hi hp2 hw hcl hcg
         have others_out : ∀ u, u ≠ t → holds (view v cfg (s.th u)) = false := lone hl
         have hnw : noWrite r = true := by
